@@ -99,7 +99,7 @@ pub fn run_c11(out: &mut Out) {
         let cols: Vec<(Kind, Vec<Vec<f64>>)> = (0..p)
             .map(|_| {
                 let k = pick_kind(&mut rng);
-                let scale = rng.log_uniform(1e-2, 1e2);
+                let scale = if rng.coin(0.2) { rng.log_uniform(1e-6, 1e-3) } else { rng.log_uniform(1e-2, 1e2) };
                 let loc = if wide { rng.normal() * scale * 1e4 } else { rng.normal() * scale * 3.0 };
                 (k, series(&mut rng, k, m, n, loc, scale))
             })
@@ -188,7 +188,9 @@ pub fn run_c11(out: &mut Out) {
     for _ in 0..out.n(150, 3000) {
         let id = out.fresh_id("bs");
         let len = rng.range(1, 40) as usize;
-        let vals: Vec<f32> = (0..len).map(|_| if rng.coin(0.2) { (rng.below(5) as f32) * 0.5 } else { (rng.normal() * rng.log_uniform(0.1, 1e3)) as f32 }).collect();
+        // a third of the cases: tightly clustered diagnostics (R-hat values 1.000x, ESS around 4000)
+        let (centre, spread): (f64, f64) = match rng.below(3) { 0 => (*rng.pick(&[1.0, 1.0, 4000.0, 250.0, -3.0]), rng.log_uniform(1e-4, 1e-2)), _ => (0.0, 1.0) };
+        let vals: Vec<f32> = (0..len).map(|_| if centre != 0.0 { (centre + centre.abs() * spread * rng.normal()) as f32 } else if rng.coin(0.2) { (rng.below(5) as f32) * 0.5 } else { (rng.normal() * rng.log_uniform(0.1, 1e3)) as f32 }).collect();
         if !out.selected(&id) {
             continue;
         }
@@ -366,7 +368,7 @@ fn c13_one<T: Elem>(out: &mut Out, rng: &mut Sm) {
     let cols: Vec<Vec<Vec<f64>>> = (0..p)
         .map(|_| {
             let k = *rng.pick(&[Kind::Iid, Kind::Ar1, Kind::Sticky, Kind::Sticky, Kind::Apart, Kind::Trend]);
-            let scale = if int { rng.uniform(2.0, 50.0) } else { rng.log_uniform(1e-2, 1e2) };
+            let scale = if int { rng.uniform(2.0, 50.0) } else if rng.coin(0.25) { rng.log_uniform(1e-6, 1e-3) } else { rng.log_uniform(1e-2, 1e2) };
             let loc = if int { scale * 4.0 + rng.unit() * 20.0 } else { rng.normal() * scale * 3.0 };
             series(rng, k, m, n + 1, loc, scale)
         })
